@@ -915,6 +915,29 @@ void VariableManager::process_variable_declaration(const ASTNode *node) {
     bool init_value_known = false;
     TypedValue init_value(static_cast<int64_t>(0), InferredType());
 
+    // `string s = 5;`, `string s = n;`, `string s = 2.5;`, `string s = f();`
+    // (f returning a number): the scalar is converted to text exactly as the
+    // assignment `s = scalar;` converts it (assign_variable:
+    // TypedValue::as_string, value 0). Storing the number in `value` with an
+    // empty text instead means "raw malloc'd buffer at that address", and the
+    // first use of the string dereferenced the number. Pointer values
+    // (`string b = malloc(n);`) keep that raw-buffer meaning, as they do in
+    // the assignment.
+    auto init_string_from_scalar = [&var](const TypedValue &tv) -> bool {
+        if (var.type != TYPE_STRING || var.is_array || var.is_pointer ||
+            tv.is_string() || !tv.is_numeric() || tv.is_function_pointer ||
+            tv.is_pointer || tv.numeric_type == TYPE_POINTER ||
+            tv.type.type_info == TYPE_POINTER) {
+            return false;
+        }
+        var.str_value = tv.as_string();
+        var.value = 0;
+        var.float_value = 0.0f;
+        var.double_value = 0.0;
+        var.quad_value = 0.0L;
+        return true;
+    };
+
     // Copy-initialisation of a struct variable from something other than a
     // plain variable: `Pt a = oa[0];` (the element exists as the struct
     // variable "oa[0]": its name is kept and the copy is made where
@@ -1884,6 +1907,8 @@ void VariableManager::process_variable_declaration(const ASTNode *node) {
                         var.str_value = typed_result.string_value;
                         // valueフィールドもコピー（generic型で使用）
                         var.value = typed_result.value;
+                    } else if (init_string_from_scalar(typed_result)) {
+                        // string s = f(); with f returning a number
                     } else if (typed_result.numeric_type == TYPE_FLOAT ||
                                typed_result.numeric_type == TYPE_DOUBLE ||
                                typed_result.numeric_type == TYPE_QUAD) {
@@ -2041,6 +2066,8 @@ void VariableManager::process_variable_declaration(const ASTNode *node) {
                     // valueフィールドもコピー（generic型で使用）
                     var.value = typed_result.value;
                     setNumericFields(var, 0.0L);
+                } else if (init_string_from_scalar(typed_result)) {
+                    // string s = 5; string s = n; string s = 2.5;
                 } else if (typed_result.is_numeric()) {
                     var.str_value.clear();
 
